@@ -112,6 +112,8 @@ class ExprMixin:
             return v
         if n in self.modconsts:
             return self.const_sv(self.modconsts[n])
+        if n in self.modpatterns:
+            return self.regex_sv(n, self.modpatterns[n])
         if n in ("True", "False", "None"):
             return self.const_sv({"True": True, "False": False, "None": None}[n])
         if n in self.bases or n in self.modclasses or n in STR_TAGS_ALL:
@@ -143,7 +145,24 @@ class ExprMixin:
             k = base.ty.kind
         if k == "ref":
             # property defined by a contract?
+            pnode = self.property_node(base.ty.cls, attr)
             prop = self.find_method(base.ty.cls, attr, want_property=True)
+            if prop is None and pnode is not None:
+                res = self.inline(pnode, [base], {}, st, exc)
+                res = self.merge_values(res) if len(res) > 1 else res
+                if len(res) == 1:
+                    return res[0][1]
+                # forked property body: join by ite on the path conditions
+                k = len(st.pc)
+                ty = res[0][1].ty
+                for _, v in res[1:]:
+                    ty = self.join_types(ty, v.ty)
+                vals = [self.coerce(v, ty, s) for s, v in res]
+                conds = [smt.And(*s.pc[k:]) for s, _ in res]
+                cur = vals[-1]
+                for c, v in zip(reversed(conds[:-1]), reversed(vals[:-1])):
+                    cur = sv_ite(c, v, cur)
+                return cur
             if prop is not None:
                 res = self.apply_contract(prop, [base], {}, st, exc, site="prop_" + attr)
                 if len(res) != 1:
@@ -424,8 +443,10 @@ class ExprMixin:
         if ka == "none":
             a, b, ka, kb = b, a, kb, ka
         if kb == "none":
-            if ka == "opt":
+            if ka in ("opt", "optmatch"):
                 return a.ts[0]
+            if ka == "match":
+                return smt.FALSE
             if ka == "any":
                 return smt.Eq(a.ts[0], T("u!none", U))
             return smt.FALSE
